@@ -54,6 +54,10 @@ fn arg_cases() -> Vec<Case> {
     for (m, e) in [(libc::S_IFLNK | 0o644, libc::EINVAL), (libc::S_IFSOCK | 0o644, libc::ENOSYS), (0o110000 | 0o644, libc::EINVAL), (libc::S_IFMT | 0o644, libc::EINVAL), (0o030000 | 0o644, libc::EINVAL), (0o070000 | 0o600, libc::EINVAL)] {
         v.push(Case { what: format!("bad-mknod-mode(0o{:o})", m), op: c("mknod").path("newn").mode(m), want_errno: e });
     }
+    // E. refused flag combinations with a VALID lent descriptor (documented as an error; the descriptor stays the caller's)
+    for fl in [O_RDONLY | O_CREAT, O_WRONLY | O_EXCL, O_RDWR | O_CREAT | O_EXCL, O_RDWR | O_TMPFILE] {
+        v.push(Case { what: format!("refused-flags(0x{:x})", fl), op: Op::new("reopen").capi().flags(fl), want_errno: libc::EINVAL });
+    }
     for m in [0o10755u32, 0o40755, 0o100644, 0o4755, 0o2755, 0o6755, 0xffff_ffff] {
         v.push(Case { what: format!("bad-mkdir_all-mode(0o{:o})", m), op: c("mkdir_all").path("x/y").mode(m), want_errno: libc::EINVAL });
     }
@@ -71,7 +75,15 @@ pub fn run_item(tier: &str, idx: usize, only: Option<&Value>) -> MResult<ItemRes
     crate::lookup::build_decoys()?;
     let root_out = out(ROOT_IN);
     let mut workers = vec![Wk::kernel()?, Wk::emulated()?];
-    for w in workers.iter_mut() { w.one(Op::new("open_root_key").root(ROOT_IN))?; }
+    for w in workers.iter_mut() {
+        w.one(Op::new("open_root_key").root(ROOT_IN))?;
+        // process-lifetime lazies (the global procfs handle is created by the first re-open) are not part of any call's table diff
+        std::fs::create_dir_all(format!("{}/warm", root_out)).ok();
+        w.one(Op::new("resolve").root(ROOT_IN).path("warm").keep("warm-h"))?;
+        w.one(Op::new("reopen").handle("warm-h").flags(O_RDONLY | O_DIRECTORY))?;
+        w.one(Op::new("reopen").capi().handle("warm-h").flags(O_RDONLY | O_DIRECTORY))?;
+        w.one(Op::new("close_handle").handle("warm-h"))?;
+    }
     match idx {
         0 => {
             // invalid-argument classes
